@@ -238,14 +238,20 @@ Proof.
     - do 2 eexists. split; [reflexivity|]. split; [exact IL|].
       unfold sel_ok; cbn [s_mt s_mg s_tok]. split; [exact GF|].
       unfold typ_fits. fold sot. unfold TS, apcb_typ_size in *. lia.
-    - destruct (scan_pairs_inv gh goff th off (gb + off + TS) (sot - TS)) with
-        (n := Z.to_nat ((sot - TS) / PS)) (i := 0)
-        (st := mkS (s_buf st) (Some (gh, goff)) (Some (th, off)) 0 (s_changed st))
-        as (st1 & e1 & E1 & B1 & B2 & B3 & B4); cbn [s_buf s_mg s_mt s_tok]; auto;
-        try (unfold GS, TS, HS, apcb_grp_size, apcb_typ_size, apcb_hdr_size in *; lia).
+    - assert (NB : (0 + Z.of_nat (Z.to_nat ((sot - TS) / PS))) * PS <= sot - TS).
       { unfold PS, TS, apcb_pair_size, apcb_typ_size in *.
         pose proof (Z.mul_div_le (sot - 16) 8 ltac:(lia)).
         rewrite Z2Nat.id by (apply Z.div_pos; lia). lia. }
+      assert (N1 : 0 <= gb + off + TS)
+        by (unfold GS, TS, HS, apcb_grp_size, apcb_typ_size, apcb_hdr_size in *; lia).
+      assert (N2 : gb + off + TS + (sot - TS) <= L)
+        by (unfold GS, TS, HS, apcb_grp_size, apcb_typ_size, apcb_hdr_size in *; lia).
+      assert (N3 : 0 <= 0 <= sot - TS) by (unfold TS, apcb_typ_size in *; lia).
+      destruct (scan_pairs_inv gh goff th off (gb + off + TS) (sot - TS) N1 N2
+                  (Z.to_nat ((sot - TS) / PS)) 0
+                  (mkS (s_buf st) (Some (gh, goff)) (Some (th, off)) 0 (s_changed st))
+                  ltac:(lia) NB IL eq_refl eq_refl N3)
+        as (st1 & e1 & E1 & B1 & B2 & B3 & B4).
       exists st1, e1. split; [exact E1|]. split; [exact B1|].
       unfold sel_ok. rewrite B2, B3. split; [exact GF|].
       unfold typ_fits. fold sot. unfold TS, apcb_typ_size in *. lia. }
@@ -279,13 +285,189 @@ Proof.
       [exfalso; unfold GS, HS, apcb_grp_size, apcb_hdr_size in *; lia|].
     apply (scan_types_inv gh off); auto;
       try (unfold GS, HS, apcb_grp_size, apcb_hdr_size in *; fold soh sog; lia).
-    destruct I as [IL IS]. unfold sel_ok in IS.
+    destruct I as [IL IS].
     destruct (s_mt st) as [[th toff]|] eqn:MT.
-    - split; [exact IL|]. unfold sel_ok. rewrite MT. exact IS.
-    - split; [exact IL|]. unfold sel_ok. cbn [s_mt s_mg]. rewrite MT. exact GF. }
+    - split; [exact IL|exact IS].
+    - split; [exact IL|]. unfold sel_ok. cbn [s_mt s_mg]. exact GF. }
   destruct R as (st1 & e1 & -> & I1).
   destruct (negb (e1 =? 0)); [eauto|].
   apply IH; auto; unfold GS, apcb_grp_size in *; lia.
 Qed.
 
 End Scan.
+
+(* the part of upsert_insert after the insertion point has been chosen (verbatim from the model) *)
+Definition ins_tail (mt mg : option (bytes * Z)) (mgoff mtoff size : Z) (hdr buf : bytes)
+    (ins added : Z) (chunks : list bytes) : outcome (bytes * Z) :=
+    if u32 (size + added) >? u32 (zlen buf) then Ok (buf, E_NOROOM) else
+    match slice (u32 (ins + added)) (zlen buf) buf, slice ins size buf with
+    | Some dst, Some src =>
+      let n := Z.min (zlen dst) (zlen src) in
+      let buf1 := splice (u32 (ins + added)) (zfirstn n src) buf in
+      if ins >? zlen buf1 then Panic 8 else
+      let '(buf2, e) := write_chunks ins (zlen buf1 - ins) chunks buf1 in
+      if negb (e =? 0) then Ok (buf2, e) else
+      match
+        (match mt with
+         | Some (th, _) =>
+           let th' := splice apcb_typ_off_size (le_enc 2 (u16 (typ_sizeof th + u16 PS))) th in
+           let o := u32 (mgoff + mtoff) in
+           if o >? zlen buf2 then Panic 9 else Ok (write_fixed o (zlen buf2 - o) th' buf2)
+         | None => Ok (buf2, 0)
+         end)
+      with
+      | Ok (buf3, e3) =>
+        if negb (e3 =? 0) then Ok (buf3, e3) else
+        match
+          (match mg with
+           | Some (gh, _) =>
+             let gh' := splice apcb_grp_off_size (le_enc 4 (u32 (grp_sizeof gh + added))) gh in
+             if mgoff >? zlen buf3 then Panic 10 else Ok (write_fixed mgoff (zlen buf3 - mgoff) gh' buf3)
+           | None => Ok (buf3, 0)
+           end)
+        with
+        | Ok (buf4, e4) =>
+          if negb (e4 =? 0) then Ok (buf4, e4) else
+          let hdr' := splice apcb_hdr_off_size (le_enc 4 (u32 (size + added))) hdr in
+          Ok (write_fixed 0 (zlen buf4) hdr' buf4)
+        | o => o
+        end
+      | o => o
+      end
+    | _, _ => Panic 7
+    end.
+
+Lemma upsert_insert_eq k pm bm kind nv size hdr st :
+  upsert_insert k pm bm kind nv size hdr st =
+  let buf := s_buf st in
+  let mgoff := u32 (match s_mg st with Some (_, o) => o | None => 0 end + HS) in
+  let mtoff0 := match s_mt st with Some (_, o) => o | None => 0 end in
+  let mtoff := match s_mg st with Some (gh, _) => u32 (mtoff0 + grp_hsize gh) | None => mtoff0 end in
+  match
+    (match s_mt st, s_mg st with
+     | Some (th, _), _ =>
+       if u32 (typ_sizeof th + PS) >? 65535 then inr E_TYPE_FULL
+       else inl (u32 (mgoff + mtoff + TS + s_tok st), PS, [enc_pair (k, nv)])
+     | None, Some (gh, _) =>
+       inl (u32 (mgoff + grp_sizeof gh), new_type_size, [new_type_header kind pm bm; enc_pair (k, nv)])
+     | None, None =>
+       inl (size, new_group_size, [new_group_header; new_type_header kind pm bm; enc_pair (k, nv)])
+     end)
+  with
+  | inr e => Ok (buf, e)
+  | inl (ins, added, chunks) => ins_tail (s_mt st) (s_mg st) mgoff mtoff size hdr buf ins added chunks
+  end.
+Proof. reflexivity. Qed.
+
+Lemma ins_tail_total mt mg mgoff mtoff size hdr buf ins added chunks :
+  0 <= ins <= size -> size <= zlen buf -> zlen buf + 40 < 2 ^ 32 -> 0 <= added <= 40 ->
+  (mt <> None -> u32 (mgoff + mtoff) <= zlen buf) ->
+  (mg <> None -> 0 <= mgoff <= zlen buf) ->
+  total (ins_tail mt mg mgoff mtoff size hdr buf ins added chunks).
+Proof.
+  intros Hins Hsz HL Hadd Hmt Hmg. unfold ins_tail.
+  rewrite (u32_small (size + added)), (u32_small (zlen buf)), (u32_small (ins + added)) by lia.
+  destruct (size + added >? zlen buf) eqn:R; [apply total_ok|].
+  rewrite !slice_ok by lia. cbv zeta.
+  set (dst := sub (ins + added) (zlen buf - (ins + added)) buf).
+  set (src := sub ins (size - ins) buf).
+  assert (Ld : zlen dst = zlen buf - (ins + added)) by (apply zlen_sub; lia).
+  assert (Ls : zlen src = size - ins) by (apply zlen_sub; lia).
+  set (buf1 := splice (ins + added) (zfirstn (Z.min (zlen dst) (zlen src)) src) buf).
+  assert (L1 : zlen buf1 = zlen buf).
+  { apply zlen_splice; [lia|]. rewrite zlen_zfirstn_min by lia. lia. }
+  rewrite L1.
+  destruct (ins >? zlen buf) eqn:C8; [exfalso; lia|].
+  pose proof (write_chunks_len chunks ins (zlen buf - ins) buf1 ltac:(lia) ltac:(lia) ltac:(lia)) as L2.
+  destruct (write_chunks ins (zlen buf - ins) chunks buf1) as [buf2 e]. cbn [fst] in L2.
+  destruct (negb (e =? 0)); [apply total_ok|].
+  assert (R3 : exists buf3 e3,
+    match mt with
+    | Some (th, _) =>
+        if u32 (mgoff + mtoff) >? zlen buf2
+        then Panic 9
+        else Ok (write_fixed (u32 (mgoff + mtoff)) (zlen buf2 - u32 (mgoff + mtoff))
+                   (splice apcb_typ_off_size (le_enc 2 (u16 (typ_sizeof th + u16 PS))) th) buf2)
+    | None => Ok (buf2, 0)
+    end = Ok (buf3, e3) /\ zlen buf3 = zlen buf).
+  { destruct mt as [[th x]|]; [|do 2 eexists; split; [reflexivity|lia]].
+    specialize (Hmt ltac:(discriminate)).
+    assert (0 <= u32 (mgoff + mtoff)) by (unfold u32; apply Z.mod_pos_bound; lia).
+    destruct (u32 (mgoff + mtoff) >? zlen buf2) eqn:C9; [exfalso; lia|].
+    match goal with |- context [write_fixed ?o ?a ?d ?b] =>
+      pose proof (write_fixed_len o a d b ltac:(lia) ltac:(lia) ltac:(lia)) as L3;
+      destruct (write_fixed o a d b) as [buf3 e3] end.
+    cbn [fst] in L3. do 2 eexists; split; [reflexivity|lia]. }
+  destruct R3 as (buf3 & e3 & -> & L3).
+  destruct (negb (e3 =? 0)); [apply total_ok|].
+  assert (R4 : exists buf4 e4,
+    match mg with
+    | Some (gh, _) =>
+        if mgoff >? zlen buf3
+        then Panic 10
+        else Ok (write_fixed mgoff (zlen buf3 - mgoff)
+                   (splice apcb_grp_off_size (le_enc 4 (u32 (grp_sizeof gh + added))) gh) buf3)
+    | None => Ok (buf3, 0)
+    end = Ok (buf4, e4) /\ zlen buf4 = zlen buf).
+  { destruct mg as [[gh x]|]; [|do 2 eexists; split; [reflexivity|lia]].
+    specialize (Hmg ltac:(discriminate)).
+    destruct (mgoff >? zlen buf3) eqn:C10; [exfalso; lia|].
+    match goal with |- context [write_fixed ?o ?a ?d ?b] =>
+      pose proof (write_fixed_len o a d b ltac:(lia) ltac:(lia) ltac:(lia)) as L4;
+      destruct (write_fixed o a d b) as [buf4 e4] end.
+    cbn [fst] in L4. do 2 eexists; split; [reflexivity|lia]. }
+  destruct R4 as (buf4 & e4 & -> & L4).
+  destruct (negb (e4 =? 0)); apply total_ok.
+Qed.
+
+Lemma upsert_insert_total k pm bm kind nv size L hdr st :
+  HS <= size <= L -> L + 40 < 2 ^ 32 -> inv size L st ->
+  total (upsert_insert k pm bm kind nv size hdr st).
+Proof.
+  intros HSz HL [IL IS]. rewrite upsert_insert_eq. cbv zeta.
+  unfold sel_ok in IS.
+  assert (A1 : 0 <= PS <= 40) by (unfold PS, apcb_pair_size; lia).
+  assert (A2 : 0 <= new_type_size <= 40) by (vm_compute; split; discriminate).
+  assert (A3 : 0 <= new_group_size <= 40) by (vm_compute; split; discriminate).
+  destruct (s_mt st) as [[th toff]|]; destruct (s_mg st) as [[gh goff]|]; try contradiction.
+  - destruct IS as ((G1 & G2 & G3) & (T1 & T2 & T3 & T4)).
+    destruct (u32 (typ_sizeof th + PS) >? 65535); [apply total_ok|].
+    unfold GS, TS, HS, apcb_grp_size, apcb_typ_size, apcb_hdr_size in *.
+    rewrite (u32_small (goff + 128)) by lia.
+    rewrite (u32_small (toff + grp_hsize gh)) by lia.
+    rewrite (u32_small (goff + 128 + (toff + grp_hsize gh) + 16 + s_tok st)) by lia.
+    apply ins_tail_total; try lia.
+    + intros _. rewrite u32_small by lia. lia.
+  - destruct IS as (G1 & G2 & G3).
+    unfold GS, TS, HS, apcb_grp_size, apcb_typ_size, apcb_hdr_size in *.
+    rewrite (u32_small (goff + 128)) by lia.
+    rewrite (u32_small (goff + 128 + grp_sizeof gh)) by lia.
+    apply ins_tail_total; try lia. intros C; exfalso; apply C; reflexivity.
+  - unfold HS, apcb_hdr_size in *.
+    apply ins_tail_total; try lia.
+    + intros C; exfalso; apply C; reflexivity.
+    + intros C; exfalso; apply C; reflexivity.
+Qed.
+
+Lemma apcb_upsert_total_gen : forall k pm bm kind nv b,
+  zlen b + 40 < 2 ^ 32 -> total (upsert k pm bm kind nv b).
+Proof.
+  intros k pm bm kind nv b HL. unfold upsert.
+  destruct (negb (kind_ok kind)); [apply total_ok|].
+  destruct (parse_header_cases b ltac:(lia)) as [[e ->]|[size [-> HSz]]]; [apply total_ok|].
+  destruct (scan_groups_inv size (zlen b) kind pm bm k nv HSz ltac:(lia) (S (length b))
+              ltac:(unfold zlen; lia) (S (length b)) 0 (mkS b None None 0 false))
+    as (st & e & -> & I).
+  - unfold HS, apcb_hdr_size in *; lia.
+  - unfold HS, apcb_hdr_size, zlen in *; lia.
+  - split; [reflexivity|exact I].
+  - destruct (negb (e =? 0)); [apply total_ok|].
+    destruct (s_changed st); [apply total_ok|].
+    apply (upsert_insert_total k pm bm kind nv size (zlen b)); auto.
+Qed.
+
+(* the statement in the shape the C18 theorems use *)
+Lemma apcb_upsert_total : forall k pm bm kind nv b,
+  bytes_ok b = true -> zlen b + 40 < 2 ^ 32 -> args_ok k pm bm kind nv ->
+  total (upsert k pm bm kind nv b).
+Proof. intros k pm bm kind nv b _ HL _. apply apcb_upsert_total_gen; exact HL. Qed.
